@@ -302,3 +302,23 @@ Fixpoint wf_fs (t : fsnode) : bool :=
             end) cs
   | _ => true
   end.
+
+(* ---- depth ---- *)
+(* number of nested directories: a file has depth 0, an empty directory 1 *)
+Fixpoint fs_depth (t : fsnode) : nat :=
+  match t with
+  | FDir cs =>
+      S ((fix go (l : list (bytes * fsnode)) : nat :=
+            match l with
+            | [] => O
+            | (_, c) :: r => Nat.max (fs_depth c) (go r)
+            end) cs)
+  | _ => O
+  end.
+
+(* t at the bottom of n nested directories, each holding the single entry [name] *)
+Fixpoint chain (n : nat) (name : bytes) (t : fsnode) : fsnode :=
+  match n with
+  | O => t
+  | S k => FDir [(name, chain k name t)]
+  end.
